@@ -34,16 +34,18 @@ def S.stored (s : S) (p : Nat) : List Nat := s.children.getD p []
 def newLine (s : S) (i : Nat) : S :=
   { s with parents := s.parents ++ [i], children := s.children ++ [[]] }
 
-/-- `_add_child_to_parent(_list, idx, indent, parentobj, childobj)`; `revPre` = the objects
-built so far, newest first (so its head is `_list[idx - 1]`) -/
+/-- `_list[idx - 1].indent`; `revPre` = the objects built so far, newest first (the list is
+never empty when a parent candidate exists) -/
+def aboveIndent : List (Nat × Info) → Nat
+  | (_, prev) :: _ => prev.indent
+  | [] => 0
+
+/-- `_add_child_to_parent(_list, idx, indent, parentobj, childobj)` -/
 def addChild (revPre : List (Nat × Info)) (s : S) (i : Nat) (l : Info) (cand : Option Nat) : S :=
   match cand with
   | none => s                                             -- `if parentobj is None: return`
   | some p =>
-    let above : Nat := match revPre with
-      | (_, prev) :: _ => prev.indent
-      | [] => 0
-    if l.isCmt && above > l.indent then s                 -- the legacy comment exception
+    if l.isCmt && aboveIndent revPre > l.indent then s                -- the legacy comment exception
     else if parentOf s.toT i == i then                    -- `elif childobj.parent is childobj`
       { s with children := s.children.modify p (fun c => c ++ [i])   -- `parentobj.children.append(childobj)`
                parents := s.parents.set i p }                       -- `childobj.parent = parentobj`
